@@ -125,5 +125,28 @@ def generate(rng, tier):
         D = float(sum(drops) * scale)
         qs = [f"L{fb(pd)},{fb(thr)}" for pd in (D, b2f(next_up(f2b(D))), b2f(next_down(f2b(D))), D / 2, D + 1.0) for thr in (0.0, 5.0)]
         out.append((f"stats {hx(skyb(blk, rng))} " + " ".join(qs), True))
+    # a preferred descent that puts the landing instant a hair above the END of a cubic segment that is still descending
+    # there (0.25 .. 2.5 units above its end altitude): the closed-form solver may lose that crossing to rounding, the
+    # answer must still be next to the end of that segment
+    for i in range(60 if tier == "thorough" else 12):
+        scale = rng.choice([1, 1, 10])
+        top = rng.choice([10000, 6000, 12000])
+        end = rng.choice([2000, 1500, 0, 500])
+        mid = top - rng.choice([0, 300, 500])
+        cub = [top, mid, end]                      # control points top, top, mid, end: level start, steep end
+        segs = [(4000, [300], [], [top], []), (rng.choice([10000, 8000]), [], [], cub, [])]
+        tail = rng.choice(["none", "level", "line"])
+        extra = 0
+        if tail == "level":
+            segs.append((3000, [], [], [end], []))
+        elif tail == "line" and end >= 500:
+            extra = rng.choice([200, 500])
+            segs.append((2000, [], [], [end - extra], []))
+        blk = build(scale, (0, 0, 0, 0), segs)
+        qs = []
+        for eps in (0.25, 0.75, 2.0, 2.5):
+            qs.append(f"L{fb(b2f(f2b((extra + eps) * scale)))},{fb(0.0)}")
+        qs.append(f"L{fb(float((extra + 40) * scale))},{fb(1.0)}")
+        out.append((f"stats {hx(skyb(blk, rng))} " + " ".join(qs), True))
     out.append((f"stats {hx(skyb(build(1, (0, 0, 5, 0), [])))} L{fb(2.5)},{fb(0.05)} L{fb(0.0)},{fb(0.05)}", False))
     return out
